@@ -16,9 +16,9 @@ def _all(f):
     return True
 
 
-prop("C03", ["take_range", "sort_take", "limit_clause"],
-     not_covered="which sort is in effect (Flattener.sort/sort_undone, infer_sorts, alias_last_sorting): recursive folds over "
-                 "PL/PQ trees with HashMap state; sort changes are NOT detected by this check")
+prop("C03", ["take_range", "sort_take", "limit_clause", "flatten_sort"],
+     not_covered="infer_sorts / alias_last_sorting (how the sort in effect travels down the CTE chain and across cid redirects: folds over PQ with HashMap state), "
+                 "ensure_names for sort columns; the recursion of Flattener::fold_expr itself (the arms are proved against its contract)")
 
 MANIFEST_TEXT = {}
 NOT_APPLICABLE = []
@@ -33,13 +33,16 @@ def na(pid, reason):
 
 
 claim("C03",
-      "PARTIAL (the take half). Proved for all inputs, unbounded number of takes: range_of_ranges composes any list of validated "
+      "PARTIAL. Proved on the real code - the resolver's side of `sort persists`: in the Flattener, after a sort the order in effect downstream is that sort and "
+      "the most recent one wins (flatten_sort FS1, FS3); a group with a non-empty key resets it - sorts upstream are dropped (FS2, FG1), the group's inner pipeline "
+      "starts unsorted with the key as partition (FG2), nothing downstream inherits an order (FG3-4); every transform call inherits the sort in effect except that a "
+      "join / append call carries none while the sort stays in effect after it (FT1-2). The take half, for all inputs and any number of takes: range_of_ranges composes any list of validated "
       "take ranges into exactly the position set that applying them one after another denotes (TR1), the OFFSET/LIMIT numbers "
       "computed in translate_select_pipeline select exactly that set (TR2), the ORDER BY emitted in front of a LIMIT is the sort embedded in the "
       "take when there is one and the inherited sorting otherwise (sort_take ST1-3), the emitted OFFSET / LIMIT / FETCH carry exactly those numbers and the "
       "ORDER BY list is kept in order (limit_clause LC2, LC2l, LC5), empty selections are encoded as LIMIT 0 and never as a "
       "negative limit (TR3o), no arithmetic panic (checked composition), and validate_take_range accepts exactly positive integer "
-      "bounds (TR4). NOT proved: which sort is in effect / sort persistence - the end-to-end sentence of C03 is not what is proved.",
+      "bounds (TR4). NOT proved: the SQL side of sort persistence (infer_sorts pushing sorts down the CTE chain) - the end-to-end sentence of C03 is not what is proved.",
       "Trusted: unpack_as_int_literal / bound_as_int by contract (enum_as_inner accessors), Option::transpose/zip and Ord::min by "
       "assume_specification, that the database implements OFFSET/LIMIT; the slice drops the rest of translate_select_pipeline.")
 
@@ -52,7 +55,7 @@ for _pid, _why in [
 ]:
     na(_pid, _why)
 
-prop("C02", ["sql_prec", "static_eval", "operator_tpl", "rel_names", "lower_cols", "vec_utils", "group_take"],
+prop("C02", ["sql_prec", "static_eval", "operator_tpl", "rel_names", "lower_cols", "vec_utils", "group_take", "flatten_sort"],
      not_covered="evaluation inside the database; dialect templates beyond the strengths they declare; sites that build SQL operands "
                  "without translate_operand (process_concat, process_array_in, try_into_between) are not yet under contract")
 claim("C02",
@@ -69,7 +72,7 @@ claim("C02",
       "Oracle = SQLite's documented precedence table (the executable grammar here). translate_expr is external (uninterpreted result, "
       "Context state not modelled); sqlparser enums are mechanically generated skeletons; sqlparser's Display is trusted to print trees as written.")
 
-prop("C01", ["split_order", "take_range", "operator_tpl", "vec_utils", "group_take"],
+prop("C01", ["split_order", "take_range", "operator_tpl", "vec_utils", "group_take", "flatten_sort"],
      not_covered="anchor_split cid redirection, preprocess (distinct/union recognition), lowering, flattening, the other pluck call sites of translate_select_pipeline (select / sort / take / join): hash-map threaded folds over three "
                  "IRs; a violation there is invisible to these contracts")
 claim("C01",
@@ -216,7 +219,7 @@ def _safety(name):
 
 
 _ALL_UNITS = ["take_range", "sort_take", "split_order", "window_frame", "dialect_select", "ident_quote", "ids_names", "toposort", "rq_tables",
-              "select_shape", "span_units", "sql_prec", "prql_prec", "literals", "set_ops", "desugar", "resolve_guards", "lex_strings", "limit_clause", "static_eval", "operator_tpl", "rel_names", "lower_cols", "vec_utils", "group_take"]
+              "select_shape", "span_units", "sql_prec", "prql_prec", "literals", "set_ops", "desugar", "resolve_guards", "lex_strings", "limit_clause", "static_eval", "operator_tpl", "rel_names", "lower_cols", "vec_utils", "group_take", "flatten_sort"]
 prop("C12", _ALL_UNITS, select={u: _safety for u in _ALL_UNITS},
      not_covered="every function that is not under contract (~150 unwrap/expect sites, todo!() in type_intersection, panic!(cannot find cid) in lookup_cid), "
                  "recursion depth, chumsky, time bounds")
